@@ -52,7 +52,7 @@ theorem C11_balanced_market_cheapest_level_suffices_no_charge (ops : Ops α B) (
     (pw2 : List α) (sm2 : B)
     (h2 : (if desiredAt env v c0 ≤ ops.soc sm1 then
         bisect ops env.eps st.cs v.minChargingPower ts (samePrice env sorted st.sortedIdx c0 s0).1
-          (ops.soc st.sim) (desiredAt env v c0) bisectFuel 0 st.cs.maxPower false pw1 sm1
+          (ops.soc st.sim) (desiredAt env v c0) bisectFuel 0 (st.cs.maxPower - pymin st.cs.currentPower 0) false pw1 sm1
       else pure (pw1, sm1)) = .ok (pw2, sm2))
     (hp : pw2 ≠ [])
     (hnext : ∀ c1 s1, sorted[(samePrice env sorted st.sortedIdx c0 s0).2]? = some (c1, s1) →
